@@ -9,6 +9,7 @@ abstraction — not a run of the library on inputs.  No compiled code is execute
 Anything outside the supported fragment raises Unsupported: rules fail closed (anchor), never pass.
 """
 import copy
+import re
 
 from .mirx import short_callee
 
@@ -234,6 +235,8 @@ IDENTITY = {'Deref::deref', 'DerefMut::deref_mut', 'String::as_str', 'Into::into
 
 
 class VM:
+    limit_hits = 0      # per process: how many top-level runs exhausted their step budget
+
     def __init__(self, facts, env=None, max_steps=400000, local_prefixes=('word_to_digit', 'lang', 'digit_string', 'tokenizer', 'error', '<')):
         self.facts = facts
         self.env = env
@@ -960,10 +963,23 @@ class VM:
             if last == 'char_indices':
                 pass
             if last == 'parse':
-                try:
-                    return Enum('core::result::Result', 'Ok', [float(s)])
-                except ValueError:
-                    return Enum('core::result::Result', 'Err', ['ParseError'])
+                ga = ((t or {}).get('gargs', '') if isinstance(t, dict) else '').strip('[] ')
+                err = Enum('core::result::Result', 'Err', ['ParseError'])
+                if ga in ('f64', 'f32'):
+                    # the grammar of <f64 as FromStr>: no surrounding white space, no `_`, optional sign, inf / infinity / nan
+                    if re.fullmatch(r'[+-]?(?:inf|infinity|nan|(?:\d+\.?\d*|\.\d+)(?:[eE][+-]?\d+)?)', s, re.I | re.A):
+                        return Enum('core::result::Result', 'Ok', [float(s)])
+                    return err
+                m_ = re.fullmatch(r'([ui])(8|16|32|64|128|size)', ga)
+                if m_:
+                    bits = 64 if m_.group(2) == 'size' else int(m_.group(2))
+                    signed = m_.group(1) == 'i'
+                    if not re.fullmatch(r'[+-]?\d+' if signed else r'\+?\d+', s, re.A):
+                        return err
+                    v_ = int(s)
+                    lo, hi = (-(1 << (bits - 1)), (1 << (bits - 1)) - 1) if signed else (0, (1 << bits) - 1)
+                    return Enum('core::result::Result', 'Ok', [v_]) if lo <= v_ <= hi else err
+                raise Unsupported('str::parse::<%s>' % ga)
             raise Unsupported('str method ' + name)
         if name in ('converts::from_utf8', 'str::from_utf8') and isinstance(a0, (Seq, Slice)):
             try:
@@ -1068,6 +1084,13 @@ class VM:
                 r = it.rest()
                 return Some(r[-1]) if r else NONE
             if last == 'collect':
+                ga = (t or {}).get('gargs', '') if isinstance(t, dict) else ''
+                if ga.rstrip(']').rstrip().endswith(('alloc::string::String', 'alloc::boxed::Box<str, alloc::alloc::Global>')):
+                    # collect::<String>() of chars / &str / String items: concatenation
+                    parts = [d(x) for x in it.rest()]
+                    if all(isinstance(x, str) for x in parts):
+                        return ''.join(parts)
+                    raise Unsupported('collect::<String>() of %r' % (parts[:3],))
                 return Seq(it.rest())
             if last in ('find', 'position'):
                 pr = self._pred(args[1])
@@ -1865,6 +1888,10 @@ class VM:
             m = body
         if self.depth == 0:
             self.steps = 0
+            if VM.limit_hits >= 3:
+                # a tree with a loop that does not advance would otherwise burn the full budget on each of tens of thousands of cases;
+                # the check has failed already (the first hits are reported), so the remaining cases are not interpreted
+                raise Unsupported('step limit reached repeatedly in this process (non-terminating loop?): remaining cases not interpreted')
         self.depth += 1
         if self.depth > 60:
             raise Unsupported('call depth')
@@ -1890,6 +1917,7 @@ class VM:
                     raise Unsupported('setdiscr')
             self.steps += 1
             if self.steps > self.max_steps:
+                VM.limit_hits += 1
                 raise Unsupported('step limit (non-terminating loop in the abstraction?)')
             t = b['term']
             k = t['k']
